@@ -15,7 +15,12 @@ A *pairs case* is
    'peek': bool (derived Box quantities read before and after the change), 'ghost': bool (a short-lived other Box is used and
    dropped first)}}
 with N0, N1 in {1, N} (one-to-one, one-to-many either side, many-to-many).  'p0'/'p1' are relative coordinates of
-the cell (Cartesian = s.V + origin, computed by the oracle) unless 'cart' is true, in which case they are Cartesian.
+the cell (Cartesian = s.V + origin, computed by the oracle) unless 'cart' is true, in which case they are Cartesian
+in units of cell['scale'] (the oracle multiplies them by it).
+Every cell dict carries an overall LENGTH SCALE 'scale' = 10^k (k = 0 in 3 of 8 cases, else -12..6, the SI value 1e-10
+favoured): gens.cell_vects / gens.cell_origin multiply vectors and origin by it, so cell, origin and positions are the
+same crystal expressed in another length unit (atomman's working units may be SI).  Nothing in the documented behaviour
+of the separation functions depends on the unit, and every tolerance of the oracles is relative to the cell size.
 All 8 periodicity settings are looped over by the oracle, so pbc is not part of the case.
 """
 import functools
@@ -58,6 +63,12 @@ _PBCSPELL = st.sampled_from(['list', 'tuple', 'array'])
 _ROUTE = st.sampled_from(['func', 'func', 'func', 'func', 'sys_pos', 'sys_idx', 'sys_idx', 'sys_mix'])
 _IDX = st.sampled_from(['int', 'list', 'array', 'slice', 'neg', 'npint', 'mask'])
 _BOOL = st.booleans()
+# overall length scale 10^k of the cell, its origin and the positions; index 0 (k = 0) is what cases shrink to
+_SCALE_K = (0, 0, 0, 0, 0, 0, 0, 0, 0, 0, 0, 0, -10, -10, -10, -12, -11, -9, -8, -7, -6, -5, -4, -3, -2, -1, 1, 2, 3, 4, 5, 6)
+_SCALE = st.integers(0, len(_SCALE_K) - 1).map(lambda i: 10.0 ** _SCALE_K[i])
+# for whole-number Cartesian positions: they stay whole (and are stored / passed as integers) only in a unit 10^k >= 1
+_SCALE_K_WHOLE = (0, 0, 0, 0, 0, 0, 0, 0, 0, 0, 0, 0, 0, 0, 1, 2, 3, 4, 5, 6, 1, 2, 3, 4, 5, 6, -10, -10, -12, -7, -3, -1)
+_SCALE_WHOLE = st.integers(0, len(_SCALE_K_WHOLE) - 1).map(lambda i: 10.0 ** _SCALE_K_WHOLE[i])
 _U01 = st.integers(20, 980).map(lambda k: k / 1000.0)
 _DIR = st.integers(-1000, 1000).map(lambda k: k / 1000.0)
 
@@ -168,7 +179,7 @@ def _strained(draw, c0):
 def _history(draw, cell, share=4):
     if draw(_TEN) >= share:
         return None
-    prior = _strained(draw, cell) if draw(_BOOL) else draw(_CELLS_MILD)
+    prior = _strained(draw, cell) if draw(_BOOL) else dict(draw(_CELLS_MILD))
     return {'cell': prior, 'how': draw(_HOW), 'warm': draw(_WARM), 'wform': draw(_WFORM), 'wpbc': draw(_PBCI),
             'setpos': draw(_SETPOS), 'peek': draw(_BOOL), 'ghost': draw(_TEN) < 3}
 
@@ -230,10 +241,16 @@ def pairs_cases(draw, incell_share=7, near_share=0, routes=True, allow_cart=True
             p1 = [_near_partner(draw, V, p0[i % n0]) for i in range(n1)]
             kind += '+near'
     route = draw(_ROUTE) if routes else 'func'
+    hist = _history(draw, cell)
+    # the length unit: attached last, everything above is in units of it
+    cell = dict(cell)
+    cell['scale'] = draw(_SCALE_WHOLE if cart else _SCALE)
+    if hist is not None:    # the Box object usually described a cell in the same unit before, sometimes in another one
+        hist['cell']['scale'] = cell['scale'] if draw(_TEN) < 8 else draw(_SCALE)
     return {'cell': cell, 'cart': cart, 'p0': p0, 'p1': p1, 'flat0': n0 == 1 and draw(_BOOL),
             'flat1': n1 == 1 and draw(_BOOL), 'spell': draw(_SPELL), 'pbcspell': draw(_PBCSPELL),
             'route': route, 'idx': draw(_IDX), 'kind': kind, 'postype': draw(_POSTYPE) if cart else 'float',
-            'pbcrot': draw(_PBCROT), 'magfirst': draw(_BOOL), 'hist': _history(draw, cell)}
+            'pbcrot': draw(_PBCROT), 'magfirst': draw(_BOOL), 'hist': hist}
 
 
 @functools.lru_cache(maxsize=None)
@@ -267,7 +284,8 @@ def _whole(x):
 
 @st.composite
 def displacement_cases(draw):
-    """'rel0'/'rel1' are relative coordinates of cell0/cell1, or (when 'cart') Cartesian positions of which the ones of
+    """'rel0'/'rel1' are relative coordinates of cell0/cell1, or (when 'cart') Cartesian positions in units of the
+    cells' common 'scale' (the oracle multiplies them by it) of which the ones of
     system 'itype' ('0', '1', 'both') are whole numbers handed to Atoms in the integer form 'iform' (Atoms then STORES
     them as integers); 'build': how the two System objects are made; 'hist': None or the cells the two Box objects describe
     first ('cell0', 'cell1'), whether displacement() is called (and judged) in that state, and the public ways in which the
@@ -317,4 +335,11 @@ def displacement_cases(draw):
                         'cell1': _strained(draw, c1) if draw(_BOOL) else draw(_CELLS_MILD),
                         'how0': draw(_DHOW), 'how1': draw(_DHOW), 'warm': draw(_BOOL), 'wpbc': draw(_PBCI),
                         'setpos': draw(_DSETPOS)}
+    # the length unit of both systems: attached last, everything above (the whole-number positions too) is in units of it
+    scale = draw(_SCALE_WHOLE if case['cart'] else _SCALE)
+    case['cell0'] = dict(c0, scale=scale)
+    case['cell1'] = dict(c1, scale=scale)
+    if case['hist'] is not None:
+        for k in ('cell0', 'cell1'):
+            case['hist'][k] = dict(case['hist'][k], scale=scale if draw(_TEN) < 8 else draw(_SCALE))
     return case
